@@ -1,1 +1,464 @@
-fn main() {}
+//! X06 harness: drives the real chia_client::Peer against an in-process plain-TCP websocket server.
+//! A history = fresh connection + Peer; the script (from TLC or from the seeded generator) says which
+//! requests the client issues (in concurrent waves) and what the server sends, in which order. Everything
+//! observable is logged; nothing is judged here (Trace_PeerRpc.tla does that).
+//!
+//! Timing independence: single-threaded tokio runtime; after every batch of server messages the server sends
+//! an id-less sentinel event and the runner waits until the Peer has broadcast it (inbound messages are
+//! handled in order, so everything before it has been handled); a request whose oneshot was filled has been
+//! woken before that point and finishes within the following yields (no I/O involved). Waiting for I/O is
+//! bounded by a generous timeout that is reported as a TOOL error, never as an observation.
+use chia_client::{Error, Peer, PeerEvent};
+use chia_protocol::Bytes32;
+use futures_util::{SinkExt, StreamExt};
+use serde_json::{Value, json};
+use std::io::Write;
+use std::sync::Arc;
+use std::time::Duration;
+use tokio::net::{TcpListener, TcpStream};
+use tokio::sync::broadcast;
+use tokio::task::JoinHandle;
+use tokio_tungstenite::WebSocketStream;
+use tungstenite::Message as Ws;
+
+const TYPES: &[(u8, &str)] = &[
+    (50, "new_peak_wallet"),
+    (54, "request_removals"),
+    (55, "respond_removals"),
+    (56, "reject_removals_request"),
+    (69, "coin_state_update"),
+    (75, "respond_children"),
+    (76, "request_ses_info"),
+    (77, "respond_ses_info"),
+    (104, "mempool_items_added"),
+    (105, "mempool_items_removed"),
+];
+fn ty_name(n: u8) -> String {
+    TYPES.iter().find(|t| t.0 == n).map(|t| t.1.to_string()).unwrap_or(format!("t{n}"))
+}
+fn ty_num(s: &str) -> u8 {
+    TYPES.iter().find(|t| t.1 == s).map(|t| t.0).unwrap_or_else(|| panic!("unknown type {s}"))
+}
+
+/// hand-written wire encoding of a well-formed body of type `ty` carrying `v` (independent of chia-protocol)
+fn body(ty: &str, v: u32, good: bool) -> Vec<u8> {
+    if !good {
+        return vec![1, (v & 0xff) as u8];
+    }
+    let vb = v.to_be_bytes();
+    let mut h32 = vec![0u8; 32];
+    h32[..4].copy_from_slice(&vb);
+    let mut o = Vec::new();
+    match ty {
+        "respond_ses_info" => {
+            o.extend([0, 0, 0, 0]);
+            o.extend([0, 0, 0, 1]);
+            o.extend([0, 0, 0, 1]);
+            o.extend(vb);
+        }
+        "respond_removals" => {
+            o.extend(vb);
+            o.extend([0u8; 32]);
+            o.extend([0, 0, 0, 0]);
+            o.push(0);
+        }
+        "reject_removals_request" => {
+            o.extend(vb);
+            o.extend([0u8; 32]);
+        }
+        "new_peak_wallet" => {
+            o.extend([0u8; 32]);
+            o.extend(vb);
+            o.extend([0u8; 16]);
+            o.extend([0, 0, 0, 0]);
+        }
+        "coin_state_update" => {
+            o.extend(vb);
+            o.extend([0, 0, 0, 0]);
+            o.extend([0u8; 32]);
+            o.extend([0, 0, 0, 0]);
+        }
+        "mempool_items_added" => {
+            o.extend([0, 0, 0, 1]);
+            o.extend(&h32);
+        }
+        "mempool_items_removed" => {
+            o.extend([0, 0, 0, 1]);
+            o.extend(&h32);
+            o.push(1);
+        }
+        "respond_children" => {
+            o.extend([0, 0, 0, 0]);
+        }
+        _ => panic!("no body for {ty}"),
+    }
+    o
+}
+fn encode_msg(ty: u8, id: Option<u16>, data: &[u8]) -> Vec<u8> {
+    let mut o = vec![ty];
+    match id {
+        None => o.push(0),
+        Some(i) => {
+            o.push(1);
+            o.extend(i.to_be_bytes());
+        }
+    }
+    o.extend((data.len() as u32).to_be_bytes());
+    o.extend(data);
+    o
+}
+/// (type, id, first u32 of the body) of a client message
+fn decode_req(b: &[u8]) -> Option<(u8, Option<u16>, u32)> {
+    let ty = *b.first()?;
+    let (id, p) = match *b.get(1)? {
+        0 => (None, 2),
+        1 => (Some(u16::from_be_bytes([*b.get(2)?, *b.get(3)?])), 4),
+        _ => return None,
+    };
+    let d = b.get(p + 4..)?;
+    let h = u32::from_be_bytes([*d.first()?, *d.get(1)?, *d.get(2)?, *d.get(3)?]);
+    Some((ty, id, h))
+}
+fn jb(b: &[u8]) -> Value {
+    Value::Array(b.iter().map(|x| json!(*x)).collect())
+}
+fn jid(id: Option<u16>) -> Value {
+    match id {
+        None => json!([]),
+        Some(i) => json!([i]),
+    }
+}
+
+struct Rng(u64);
+impl Rng {
+    fn next(&mut self) -> u64 {
+        self.0 = self.0.wrapping_add(0x9E3779B97F4A7C15);
+        let mut z = self.0;
+        z = (z ^ (z >> 30)).wrapping_mul(0xBF58476D1CE4E5B9);
+        z = (z ^ (z >> 27)).wrapping_mul(0x94D049BB133111EB);
+        z ^ (z >> 31)
+    }
+    fn below(&mut self, n: u64) -> u64 {
+        self.next() % n
+    }
+}
+
+const REPLY_TYPES: &[&str] = &[
+    "respond_ses_info",
+    "respond_removals",
+    "reject_removals_request",
+    "new_peak_wallet",
+    "coin_state_update",
+    "mempool_items_added",
+    "mempool_items_removed",
+    "respond_children",
+];
+
+fn random_script(r: &mut Rng) -> Value {
+    let mut steps = Vec::new();
+    let mut nreq = 0u64;
+    let waves = 1 + r.below(3);
+    let mut v = 1;
+    for _ in 0..waves {
+        let n = 1 + r.below(3);
+        let mut rs = Vec::new();
+        for _ in 0..n {
+            nreq += 1;
+            rs.push(json!({"r": nreq, "kind": if r.below(2) == 0 { "ses" } else { "rem" }}));
+        }
+        // sometimes talk before the first wave (future ids, events)
+        if nreq == n && r.below(3) == 0 {
+            steps.push(json!({"k": "reply", "to": {"k": "abs", "id": r.below(3)}, "ty": REPLY_TYPES[r.below(8) as usize], "v": 99, "good": true}));
+        }
+        steps.push(json!({"k": "wave", "rs": rs}));
+        for _ in 0..r.below(7) {
+            let to = match r.below(10) {
+                0..=5 => json!({"k": "r", "r": 1 + r.below(nreq)}),
+                6 | 7 => json!({"k": "none"}),
+                _ => json!({"k": "abs", "id": if r.below(4) == 0 { 65535 } else { r.below(9) }}),
+            };
+            let ty = match r.below(10) {
+                0..=2 => "respond_ses_info",
+                3..=5 => "respond_removals",
+                6 => "reject_removals_request",
+                _ => REPLY_TYPES[r.below(8) as usize],
+            };
+            v += 1;
+            steps.push(json!({"k": "reply", "to": to, "ty": ty, "v": v, "good": r.below(6) != 0}));
+        }
+    }
+    if r.below(6) == 0 {
+        steps.push(json!({"k": "close"}));
+    }
+    json!({"steps": steps})
+}
+
+type Outcome = Value;
+struct Hist {
+    server: Option<WebSocketStream<TcpStream>>,
+    peer: Arc<Peer>,
+    rx: broadcast::Receiver<PeerEvent>,
+    tasks: Vec<(u64, JoinHandle<Outcome>)>,
+    ids: std::collections::HashMap<u64, u16>,
+    nsync: u32,
+    dirty: bool,
+    closed: bool,
+    evbuf: Vec<Value>,
+}
+const TMO: Duration = Duration::from_secs(30);
+
+fn invalid(m: chia_protocol::Message) -> Value {
+    json!({"k": "invalid", "ty": ty_name(m.msg_type as u8), "id": jid(m.id), "data": jb(m.data.as_ref())})
+}
+fn err_out<R>(e: Error<R>, rej: impl FnOnce(R) -> Value) -> Value {
+    match e {
+        Error::Chia(e) => json!({"k": "chia", "e": format!("{e:?}")}),
+        Error::WebSocket(_) => json!({"k": "ws"}),
+        Error::InvalidResponse(m) => invalid(m),
+        Error::MissingResponse => json!({"k": "missing"}),
+        Error::Rejection(r) => rej(r),
+    }
+}
+async fn do_request(peer: Arc<Peer>, kind: String, h: u32) -> Outcome {
+    if kind == "ses" {
+        match peer.request_ses_info(h, 0).await {
+            Ok(r) => {
+                if r.reward_chain_hash.is_empty() && r.heights.len() == 1 && r.heights[0].len() == 1 {
+                    json!({"k": "ok", "v": r.heights[0][0]})
+                } else {
+                    json!({"k": "ok_shape"})
+                }
+            }
+            Err(e) => err_out(e, |()| json!({"k": "rejection_unit"})),
+        }
+    } else {
+        match peer.request_removals(h, Bytes32::default(), None).await {
+            Ok(r) => json!({"k": "ok", "v": r.height}),
+            Err(e) => err_out(e, |r| json!({"k": "rejection", "v": r.height})),
+        }
+    }
+}
+fn ev_json(e: &PeerEvent) -> Value {
+    let first4 = |b: &Bytes32| u32::from_be_bytes([b[0], b[1], b[2], b[3]]);
+    match e {
+        PeerEvent::CoinStateUpdate(x) => json!({"ty": "coin_state_update", "v": x.height}),
+        PeerEvent::NewPeakWallet(x) => json!({"ty": "new_peak_wallet", "v": x.height}),
+        PeerEvent::MempoolItemsAdded(x) => json!({"ty": "mempool_items_added", "v": x.transaction_ids.first().map(first4).unwrap_or(0)}),
+        PeerEvent::MempoolItemsRemoved(x) => json!({"ty": "mempool_items_removed", "v": x.removed_items.first().map(|i| first4(&i.transaction_id)).unwrap_or(0)}),
+    }
+}
+
+impl Hist {
+    async fn open() -> Result<Hist, String> {
+        let l = TcpListener::bind("127.0.0.1:0").await.map_err(|e| e.to_string())?;
+        let port = l.local_addr().map_err(|e| e.to_string())?.port();
+        let acc = tokio::spawn(async move {
+            let (s, _) = l.accept().await.map_err(|e| e.to_string())?;
+            s.set_nodelay(true).map_err(|e| e.to_string())?;
+            tokio_tungstenite::accept_async(s).await.map_err(|e| e.to_string())
+        });
+        let (ws, _) = tokio::time::timeout(TMO, tokio_tungstenite::connect_async_with_config(format!("ws://127.0.0.1:{port}"), None, true))
+            .await
+            .map_err(|_| "connect timeout".to_string())?
+            .map_err(|e| e.to_string())?;
+        let server = tokio::time::timeout(TMO, acc).await.map_err(|_| "accept timeout".to_string())?.map_err(|e| e.to_string())??;
+        let peer = Peer::new(ws);
+        let rx = peer.receiver().resubscribe();
+        Ok(Hist { server: Some(server), peer: Arc::new(peer), rx, tasks: vec![], ids: Default::default(), nsync: 0, dirty: false, closed: false, evbuf: vec![] })
+    }
+    async fn send_msg(&mut self, id: Option<u16>, ty: &str, v: u32, good: bool, out: &mut Vec<Value>) -> Result<(), String> {
+        let data = body(ty, v, good);
+        let bytes = encode_msg(ty_num(ty), id, &data);
+        out.push(json!({"k": "reply", "m": {"id": jid(id), "ty": ty, "v": v, "good": good, "data": jb(&data)}}));
+        self.server.as_mut().ok_or("server gone")?.send(Ws::Binary(bytes.into())).await.map_err(|e| format!("server send: {e}"))?;
+        self.dirty = true;
+        Ok(())
+    }
+    /// wait until everything the server has sent so far has been handled by the Peer
+    async fn sync(&mut self, out: &mut Vec<Value>) -> Result<(), String> {
+        if self.closed || !self.dirty {
+            return Ok(());
+        }
+        self.nsync += 1;
+        let sv = 1_000_000 + self.nsync;
+        self.send_msg(None, "new_peak_wallet", sv, true, out).await?;
+        loop {
+            match tokio::time::timeout(TMO, self.rx.recv()).await {
+                Err(_) => return Err("timeout waiting for the sentinel event".into()),
+                Ok(Err(e)) => return Err(format!("event receiver: {e:?}")),
+                Ok(Ok(ev)) => {
+                    let j = ev_json(&ev);
+                    let stop = j["ty"] == "new_peak_wallet" && j["v"] == sv;
+                    self.evbuf.push(j);
+                    if stop {
+                        break;
+                    }
+                }
+            }
+        }
+        self.dirty = false;
+        Ok(())
+    }
+    async fn observe(&mut self, out: &mut Vec<Value>) {
+        for _ in 0..64 {
+            tokio::task::yield_now().await;
+        }
+        // events that were broadcast but not yet read (none after a sync; after close: the rest)
+        while let Ok(ev) = self.rx.try_recv() {
+            self.evbuf.push(ev_json(&ev));
+        }
+        let mut done = Vec::new();
+        let mut pend = Vec::new();
+        let mut keep = Vec::new();
+        for (r, h) in std::mem::take(&mut self.tasks) {
+            if h.is_finished() {
+                let o = match h.await {
+                    Ok(o) => o,
+                    Err(e) => json!({"k": "panic", "e": e.to_string()}),
+                };
+                done.push(json!({"r": r, "out": o}));
+            } else {
+                pend.push(json!(r));
+                keep.push((r, h));
+            }
+        }
+        self.tasks = keep;
+        out.push(json!({"k": "obs", "done": done, "pend": pend, "ev": std::mem::take(&mut self.evbuf)}));
+    }
+    async fn run(&mut self, script: &Value, out: &mut Vec<Value>) -> Result<(), String> {
+        for st in script["steps"].as_array().ok_or("no steps")? {
+            match st["k"].as_str().unwrap_or("") {
+                "wave" => {
+                    self.sync(out).await?;
+                    self.observe(out).await;
+                    let rs = st["rs"].as_array().ok_or("rs")?;
+                    let mut reqs = Vec::new();
+                    for q in rs {
+                        let r = q["r"].as_u64().ok_or("r")?;
+                        let kind = q["kind"].as_str().ok_or("kind")?.to_string();
+                        let h = 100 + r as u32;
+                        reqs.push(json!({"r": r, "kind": kind, "h": h}));
+                        self.tasks.push((r, tokio::spawn(do_request(self.peer.clone(), kind, h))));
+                    }
+                    let mut arr = Vec::new();
+                    while arr.len() < rs.len() && !self.closed {
+                        match tokio::time::timeout(TMO, self.server.as_mut().ok_or("server gone")?.next()).await {
+                            Err(_) => return Err("timeout waiting for the requests on the wire".into()),
+                            Ok(None) => return Err("server stream ended".into()),
+                            Ok(Some(Err(e))) => return Err(format!("server recv: {e}")),
+                            Ok(Some(Ok(Ws::Binary(b)))) => {
+                                let (ty, id, h) = decode_req(&b).ok_or("undecodable request")?;
+                                let r = (h as u64).wrapping_sub(100);
+                                if let Some(i) = id {
+                                    self.ids.insert(r, i);
+                                }
+                                arr.push(json!({"r": r, "id": jid(id), "ty": ty_name(ty), "h": h}));
+                            }
+                            Ok(Some(Ok(_))) => {}
+                        }
+                    }
+                    out.push(json!({"k": "wave", "reqs": reqs, "arr": arr}));
+                }
+                "reply" => {
+                    if self.closed {
+                        continue;
+                    }
+                    let id = match st["to"]["k"].as_str().unwrap_or("") {
+                        "none" => None,
+                        "abs" => Some(st["to"]["id"].as_u64().ok_or("id")? as u16),
+                        "r" => match self.ids.get(&st["to"]["r"].as_u64().ok_or("to.r")?) {
+                            Some(i) => Some(*i),
+                            None => continue, // request not issued yet: the step is skipped (nothing is sent, nothing logged)
+                        },
+                        _ => return Err("bad reply target".into()),
+                    };
+                    let ty = st["ty"].as_str().ok_or("ty")?;
+                    self.send_msg(id, ty, st["v"].as_u64().ok_or("v")? as u32, st["good"].as_bool().ok_or("good")?, out).await?;
+                }
+                "close" => {
+                    if self.closed {
+                        continue;
+                    }
+                    self.sync(out).await?;
+                    self.observe(out).await;
+                    out.push(json!({"k": "close"}));
+                    self.server.as_mut().ok_or("server gone")?.close(None).await.map_err(|e| format!("server close: {e}"))?;
+                    // drain the close handshake on the server side
+                    loop {
+                        match tokio::time::timeout(TMO, self.server.as_mut().ok_or("server gone")?.next()).await {
+                            Err(_) => return Err("timeout in the close handshake".into()),
+                            Ok(None) | Ok(Some(Err(_))) => break,
+                            Ok(Some(Ok(_))) => {}
+                        }
+                    }
+                    // the server side closes the TCP connection (tungstenite: the server closes first)
+                    drop(self.server.take());
+                    // the Peer's inbound loop has ended when the event sender is gone
+                    loop {
+                        match tokio::time::timeout(TMO, self.rx.recv()).await {
+                            Err(_) => return Err("timeout waiting for the inbound loop to end".into()),
+                            Ok(Err(broadcast::error::RecvError::Closed)) => break,
+                            Ok(Err(e)) => return Err(format!("event receiver: {e:?}")),
+                            Ok(Ok(ev)) => self.evbuf.push(ev_json(&ev)),
+                        }
+                    }
+                    self.closed = true;
+                }
+                x => return Err(format!("unknown step {x}")),
+            }
+        }
+        self.sync(out).await?;
+        self.observe(out).await;
+        Ok(())
+    }
+}
+
+async fn run_all(scripts: Vec<(String, Value)>, path: &str) -> usize {
+    let mut f = std::io::BufWriter::new(std::fs::File::create(path).expect("create out"));
+    let mut n = 0;
+    for (src, sc) in scripts {
+        let mut out = vec![json!({"k": "reset", "src": src, "script": sc})];
+        let res = match Hist::open().await {
+            Ok(mut h) => {
+                let r = h.run(&sc, &mut out).await;
+                for (_, t) in &h.tasks {
+                    t.abort();
+                }
+                r
+            }
+            Err(e) => Err(e),
+        };
+        if let Err(e) = res {
+            out.push(json!({"k": "toolerr", "e": e}));
+        }
+        for o in out {
+            writeln!(f, "{o}").unwrap();
+            n += 1;
+        }
+    }
+    f.flush().unwrap();
+    n
+}
+
+fn main() {
+    let a: Vec<String> = std::env::args().collect();
+    let get = |k: &str| a.iter().position(|x| x == k).and_then(|i| a.get(i + 1)).cloned();
+    let out = get("--out").expect("--out");
+    let seed: u64 = get("--seed").and_then(|s| s.parse().ok()).unwrap_or(1);
+    let n: u64 = get("--n").and_then(|s| s.parse().ok()).unwrap_or(100);
+    let mut scripts = Vec::new();
+    if let Some(c) = get("--cases") {
+        for l in std::fs::read_to_string(&c).expect("cases").lines() {
+            if !l.trim().is_empty() {
+                scripts.push(("tlc".to_string(), serde_json::from_str::<Value>(l).expect("case json")));
+            }
+        }
+    }
+    let mut r = Rng(seed);
+    for _ in 0..n {
+        scripts.push(("rand".to_string(), random_script(&mut r)));
+    }
+    let rt = tokio::runtime::Builder::new_current_thread().enable_all().build().expect("runtime");
+    let ev = rt.block_on(run_all(scripts, &out));
+    println!("{{\"events\":{ev}}}");
+}
